@@ -132,7 +132,7 @@ impl<'a, 'tcx> Ctx<'a, 'tcx> {
             if uv.promoted.is_none() {
                 o.push(("const".into(), J::Str(dps(self.tcx, uv.def))));
             } else {
-                o.push(("promoted".into(), J::Bool(true)));
+                o.push(("promoted".into(), J::Num(uv.promoted.unwrap().as_u32() as i128)));
             }
         }
         let is_scalar = ty.is_integral() || ty.is_bool() || ty.is_char() || ty.is_adt();
@@ -469,6 +469,37 @@ fn dump_fn<'tcx>(tcx: TyCtxt<'tcx>, ldid: LocalDefId) -> Option<(String, J)> {
     o.push(("dbg".into(), J::Arr(dbg)));
     let blocks: Vec<J> = body.basic_blocks.iter().map(|bb| cx.block(bb)).collect();
     o.push(("bbs".into(), J::Arr(blocks)));
+    // promoted bodies: list the constants each one mentions (e.g. `&RegId::WRITABLE`)
+    let proms = tcx.promoted_mir(did);
+    let mut pj = Vec::new();
+    for pb in proms.iter() {
+        let pcx = Ctx { tcx, body: pb, def: did, env };
+        let mut ks = Vec::new();
+        for bb in pb.basic_blocks.iter() {
+            for st in &bb.statements {
+                if let StatementKind::Assign(b) = &st.kind {
+                    let (_, rv) = &**b;
+                    let mut ops: Vec<&Operand<'tcx>> = Vec::new();
+                    match rv {
+                        Rvalue::Use(op, ..) => ops.push(op),
+                        Rvalue::Cast(_, op, _) => ops.push(op),
+                        Rvalue::Aggregate(_, fs) => { for f in fs.iter() { ops.push(f); } }
+                        Rvalue::BinaryOp(_, ab) => { ops.push(&ab.0); ops.push(&ab.1); }
+                        Rvalue::UnaryOp(_, a) => ops.push(a),
+                        Rvalue::Repeat(op, _) => ops.push(op),
+                        _ => {}
+                    }
+                    for op in ops {
+                        if let Operand::Constant(c) = op {
+                            ks.push(pcx.constant(c));
+                        }
+                    }
+                }
+            }
+        }
+        pj.push(J::Arr(ks));
+    }
+    o.push(("proms".into(), J::Arr(pj)));
     Some((name, J::Obj(o)))
 }
 
